@@ -4,7 +4,7 @@ R09.1 keep-alive flag per protocol registered in Litep2p::new (ping, identify: N
 R09.2 connection activity / upgrade and the substream lifetime permit exist exactly for keep-alive protocols
 R09.3 the opening permit travels from the open request to the protocol
 R09.4 only ConnectionHandle::{downgrade, close} turn a strong sender into a weak one
-R09.5 (thorough, K11) the keep-alive tracker / TransportService never return Pending without a waker
+R09.5 (K11) the keep-alive tracker / TransportService never return Pending without a waker
 Not decided: "after the timeout and not before" (time).
 """
 import re
@@ -15,7 +15,7 @@ import k11
 
 EXPLANATION = ("Table, guard and provenance rules: the SubstreamKeepAlive constant at each register_protocol call site of Litep2p::new is "
                "compared with the property's table; activity tracking, connection upgrade and the lifetime permit are reachable exactly over "
-               "the `== SubstreamKeepAlive::Yes` edge; weak-sender creation is confined to two methods; K11 (thorough) shows that every "
+               "the `== SubstreamKeepAlive::Yes` edge; weak-sender creation is confined to two methods; K11 shows that every "
                "Pending return of the tracker has a registered waker.")
 
 TABLE = {  # config field the protocol comes from -> expected flag
@@ -204,6 +204,5 @@ def run(ctx):
             r09_1(ctx, fx)
             r09_3(ctx, fx)
             r09_4(ctx, fx)
-            if ctx.tier == "thorough":
-                r09_5(ctx, fx)
+            r09_5(ctx, fx)
         r09_2(ctx, fx)
